@@ -90,6 +90,14 @@ EndsFrom(Mac, chars, j, SP) ==
         ELSE EndsFrom(Mac, chars, j + 1, UNION {PDS(Mac, chars[j + 1][1], sp) : sp \in SP}))
 RuleEnds(Mac, e, chars, i) == EndsFrom(Mac, chars, i, {<<e>>})
 
+\* the rule shape C08 speaks about: prefix, one non-greedy repetition, non-empty literal terminator
+NGShape(Mac, e) ==
+  /\ e.k = "cat" /\ Len(e.es) >= 2
+  /\ LET n == Len(e.es) IN
+     /\ e.es[n].k = "lit" /\ e.es[n].cs # <<>>
+     /\ e.es[n - 1].k \in {"starng", "plusng"} /\ ~HasNG(Mac, e.es[n - 1].es[1])
+     /\ \A q \in 1..(n - 2) : ~HasNG(Mac, e.es[q])
+
 -----------------------------------------------------------------------------
 (* Reference tokenizer.                                                    *)
 (* chars: sequence of <<rune, width>>; Modes[m] = [name, rules]; rules[r] = *)
